@@ -348,6 +348,7 @@ package jsonpatch
 //@   ensures[C01] null: kind(val(data)) == KNull ==> err == nil && n.obj == nil
 //@   ensures[C01] other: kind(val(data)) != KNull && kind(val(data)) != KObj ==> err != nil && n.obj == nil
 //@   ensures[C02] keeps-no-null-kids: old(noNullKids()) ==> noNullKids()
+//@   ensures[C02,C07] never-a-syntax-error: !isSyntax(err)
 
 //@ func (*partialArray).UnmarshalJSON
 //@   requires recv: n != nil && allocated(n) && n.nodes == nil && wf(data)
@@ -763,12 +764,20 @@ package jsonpatch
 
 //@ func isSyntaxError
 //@   modifies nothing
+//@   ensures[meta C02] classifies: result <==> isSyntax(err)
 
 //@ func doMergePatch
 //@   modifies region(lazyNode.which), region(lazyNode.doc), region(lazyNode.ary), region(lazyNode.raw), region(partialDoc.obj), region(partialDoc.keys), region(partialDoc.opts), region(partialDoc.self), region(partialArray.nodes), region(partialArray.self), region(elem string), region(elem *lazyNode), region(map map[string]*lazyNode), region(cell int64), region(cell container), region(cell any), region(json.scanner.step), region(json.scanner.err), region(json.scanner.endTop), region(json.scanner.bytes), region(json.scanner.parseState), region(elem int), ghost(BufContent)
 //@   assume A-merge-entry: noNullKids()
 //@   ensures[C02,C16] rejects-ill-formed-doc: !wf(docData) ==> err != nil && result.0 == nil
 //@   ensures[C02,C16] rejects-ill-formed-patch: !wf(patchData) ==> err != nil && result.0 == nil
+//@   ensures[C02,C07] null-document-is-rejected: wf(docData) && wf(patchData) && kind(val(docData)) == KNull ==> err != nil && result.0 == nil
+//@   ensures[C02,C07] a-literal-patch-replaces-the-document-verbatim: wf(docData) && wf(patchData) && kind(val(docData)) != KNull && kind(val(patchData)) != KObj && kind(val(patchData)) != KArr ==> err == nil && result.0 == patchData
+//@   ensures[C02,C07] two-objects-are-merged: wf(docData) && wf(patchData) && kind(val(docData)) == KObj && kind(val(patchData)) == KObj ==> reached(mergeDocs#1) && reached(Marshal#2)
+//@   ensures[C02] an-object-patch-on-a-non-object-document-is-pruned: wf(docData) && wf(patchData) && kind(val(docData)) != KObj && kind(val(docData)) != KNull && kind(val(patchData)) == KObj && !mergeMerge ==> reached(pruneDocNulls#1) && !reached(mergeDocs#1) && reached(Marshal#2)
+//@   ensures[C02,C07] an-array-patch-replaces-the-document: wf(docData) && wf(patchData) && kind(val(docData)) != KNull && kind(val(patchData)) == KArr ==> reached(pruneAryNulls#1) && reached(Marshal#1) && !reached(mergeDocs#1)
+//@   callsite[C02,C07] mergeDocs#1 the-decoded-document-is-merged-with-the-decoded-patch: arg_doc == doc && arg_patch == patch && (arg_mergeMerge <==> mergeMerge)
+//@   callsite[C02] pruneDocNulls#1 the-patch-is-pruned: arg_doc == patch
 
 // ---- exported wrappers: "every patch that DecodePatch accepts, any non-nil options" ----
 
